@@ -344,7 +344,9 @@ def gen_history(rng, ctx):
                 # own rules / own dictionary, then (some of) the library's
                 # own dictionaries in some order
                 ops_.append({'op': 'lex_clear'})
-                ops_.append({'op': 'lex_set_regex', 'which': 'extended'})
+                ops_.append({'op': 'lex_set_regex',
+                             'which': rng.choice(['extended', 'stock',
+                                                  'stock'])})
                 stock = ['KEYWORDS_COMMON', 'KEYWORDS_ORACLE',
                          'KEYWORDS_PLPGSQL', 'KEYWORDS_HQL', 'KEYWORDS']
                 rng.shuffle(stock)
